@@ -159,6 +159,36 @@ def v2_record_size(first_ts, rec):
     return len(ref.encode_record_v2(first_ts, r))
 
 
+def check_codecs(ck):
+    """compression codecs and compressed batches on payloads that span several codec blocks (32 KiB xerial blocks of
+    snappy, 64 KiB lz4 frames ...), incompressible / compressible / mixed: decode(encode(x)) == x and what the
+    builder wrote is what both readers return.  The generated batches of the main correspondence stay small."""
+    rng = ck.rng
+    cases = []
+    sizes = [0, 1, 100, 32767, 32768, 32769, 40000, 65535, 65536, 65537, 100000] + ([300000, 1 << 20] if ck.thorough else [])
+    for name in ("gzip", "snappy", "lz4", "zstd"):
+        for n in sizes:
+            for shape in ("random", "zeros", "mixed", "text"):
+                cases.append({"codec": name, "n": n, "shape": shape, "seed": rng.randrange(1 << 30)})
+    bad = 0
+    for env_name, env in (("py", {"AIOKAFKA_NO_EXTENSIONS": "1"}), ("cy", {})):
+        res = run_impl("c09_codec_impl.py", {"cases": cases}, timeout=900, env=env)
+        for c, r in zip(cases, res["out"]):
+            if r.get("skipped"):
+                continue
+            ck.count(key=("codec", env_name, c["codec"], c["n"], c["shape"]), nontrivial=c["n"] >= 32768)
+            for k in ("roundtrip", "batch_v2", "batch_v1"):
+                if k in r and r[k] is not True:
+                    bad += 1
+                    if bad <= 8:
+                        ck.violation(f"{c['codec']}: a {c['n']}-byte {c['shape']} payload does not survive "
+                                     f"{'encode/decode' if k == 'roundtrip' else 'builder -> reader (magic ' + k[-1] + ')'} "
+                                     f"with the {env_name} record classes: {r.get('exc') or r.get(k + '_detail')}",
+                                     {"case": c, "implementation": env_name, "result": r},
+                                     signature=f"codec-roundtrip:{c['codec']}:{k}")
+    ck.obligation("correspondence:codecs-round-trip-multi-block-payloads", bad == 0, f"{bad} failures of {2 * len(cases)}")
+
+
 def gen_v2_case(rng, idx, thorough, codecs_available):
     r = rng.random()
     n = 0 if r < 0.03 else 1 if r < 0.2 else rng.randrange(2, 6) if r < 0.8 else rng.randrange(6, 40)
@@ -1146,6 +1176,7 @@ def run(ck: Check, only=None):
     # --- (1) proofs over the regenerated translation
     ok_t, rep = ck.regenerate(["VarintEnc", "VarintSize", "VarintDec"])
     ok_p, out = ck.coq_props("C09", timeout=1500)
+    check_codecs(ck)
     ck.log(f"translation ok={ok_t}, proofs ok={ok_p}")
     tick(ck, "translate+proofs")
 
